@@ -64,6 +64,7 @@ type Version struct {
 }
 
 type Scenario struct {
+	noTwin bool // set on the twin run made to attribute a finding (not part of the description)
 	// SeqBurn: the fixed pathbadger scenario around the uint16 sequence counter (runSeqBurn)
 	SeqBurn bool `json:"seqburn,omitempty"`
 	Backend  string    `json:"backend"`
@@ -450,6 +451,56 @@ func corruptions(r *prng.R, served []entry, old, new []kv, srcVer, dstVer uint64
 	return append(all, again)
 }
 
+// attributeUnresolvable reads back the stored internal log of (start, end) and decides whether
+// every reference that does not resolve is (1) the invalid pointer or (2) the root slot of an older
+// version, AND belongs to a key that the storing batch only re-inserted with the value it had.
+func attributeUnresolvable(clog []entry, ops []Op, oldKV []kv, start, end node.Root, ndb nodedb.NodeDB) (string, bool) {
+	il, err := pathbadger.VerifInternalWriteLog(ndb, start, end)
+	if err != nil || len(il.Entries) != len(clog) {
+		return "", false
+	}
+	mechs := map[string]bool{}
+	for i, e := range il.Entries {
+		if e.Kind != 0x01 || e.Node.Found || (e.Version == end.Version && e.Index == 0) {
+			continue
+		}
+		switch {
+		case e.Version == ^uint64(0) && e.Index == ^uint32(0):
+			mechs["invalid pointer of an embedded leaf"] = true
+		case e.Index == 0 && e.Version < end.Version:
+			mechs[fmt.Sprintf("root slot of version %d, end version %d", e.Version, end.Version)] = true
+		default:
+			return "", false
+		}
+		// the key of this entry: only same-value re-insertions in the storing batch
+		k := clog[i].k
+		var had []byte
+		present := false
+		for _, o := range oldKV {
+			if bytes.Equal(o.k, k) {
+				had, present = o.v, true
+			}
+		}
+		if !present || clog[i].del || !bytes.Equal(clog[i].v, had) {
+			return "", false
+		}
+		for _, o := range ops {
+			if o.Key == hx(k) && !(o.K == "ins" && o.Val == hx(had)) {
+				return "", false
+			}
+		}
+	}
+	if len(mechs) == 0 {
+		return "", false
+	}
+	var names []string
+	for m := range mechs {
+		names = append(names, m)
+	}
+	sort.Strings(names)
+	return strings.Join(names, " + "), true
+}
+
 // hashOf computes the root hash of given contents with an in-memory tree (nothing persisted).
 func hashOf(m []kv) hash.Hash {
 	ctx := context.Background()
@@ -750,6 +801,8 @@ func runScenario(sc Scenario) (res runResult) {
 		db2coq     []string
 		applied    bool
 		emit       bool
+		vi, bi     int   // where the batch sits in the scenario
+		storer     *cand // the candidate whose commit stored the log for this (start, end) pair
 	}
 	coqBackend := map[string]string{"badger": "Badger", "pathbadger": "PathBadger"}[sc.Backend]
 	// trace of database calls (pathbadger storage model)
@@ -914,23 +967,57 @@ func runScenario(sc Scenario) (res runResult) {
 			}
 		default:
 			what := fmt.Sprintf("pair %d: the database cannot serve the write log of a stored pair of consecutive roots (log of %d entries at commit): %v", p.idx, len(p.committed), q.err)
-			// recognised defect: pathbadger, an entry re-inserting the unchanged value of a key
-			sameValue := false
-			for _, e := range p.committed {
-				if !e.del {
-					for _, o := range p.oldKV {
-						if bytes.Equal(o.k, e.k) && bytes.Equal(o.v, e.v) {
-							sameValue = true
+			// Recognised defect (pathbadger): the stored internal log holds an insertion whose
+			// reference was never written by the batch and cannot be resolved -- the invalid pointer
+			// of a leaf embedded in an internal node, or the root slot of the start version for a
+			// leaf that is the whole tree -- because the key was only re-inserted with the value it
+			// already had.  Attributed on that stored state (read back through the hook), on the
+			// batch that stored the log, and on a twin run without the re-insertions being clean.
+			attributed := false
+			if sc.Backend == "pathbadger" && strings.Contains(q.err.Error(), "mkvs/pathbadger: failed to fetch node") {
+				if mech, ok := attributeUnresolvable(p.storer.clog, p.storer.ops, p.storer.oldKV,
+					mkRoot(p.start.ver, p.start.hash), mkRoot(p.end.ver, p.end.hash), ndb1); ok {
+					twinClean := true
+					if !sc.noTwin {
+						twin := cloneScenario(sc)
+						twin.noTwin = true
+						var kept []Op
+						for _, o := range twin.Versions[p.storer.vi].Batches[p.storer.bi] {
+							drop := false
+							if o.K == "ins" {
+								for _, e := range p.storer.oldKV {
+									if hx(e.k) == o.Key && hx(e.v) == o.Val {
+										drop = true
+									}
+								}
+							}
+							if !drop {
+								kept = append(kept, o)
+							}
 						}
+						twin.Versions[p.storer.vi].Batches[p.storer.bi] = kept
+						tr := runScenario(twin)
+						for _, v := range tr.violations {
+							twinClean = twinClean && !strings.HasPrefix(v, fmt.Sprintf("pair %d", p.idx))
+						}
+						for _, f := range tr.findings {
+							twinClean = twinClean && !strings.HasPrefix(f.what, fmt.Sprintf("pair %d:", p.idx))
+						}
+						res.hist["finding-twin:"+map[bool]string{true: "clean", false: "not-clean"}[twinClean]]++
+					}
+					if twinClean {
+						attributed = true
+						res.hist["finding-mechanism:"+mech]++
+						res.findings = append(res.findings, finding{keyEmbeddedLeaf, what + " [stored reference: " + mech + "]"})
 					}
 				}
 			}
-			if sc.Backend == "pathbadger" && sameValue && strings.Contains(q.err.Error(), "mkvs/pathbadger: failed to fetch node") {
-				res.findings = append(res.findings, finding{keyEmbeddedLeaf, what})
-			} else if sc.Backend == "badger" && strings.Contains(q.err.Error(), "mkvs: node not found in node db") {
-				res.findings = append(res.findings, finding{keyDiscardSharedNode, what})
-			} else {
-				viol("%s", what)
+			if !attributed {
+				if sc.Backend == "badger" && strings.Contains(q.err.Error(), "mkvs: node not found in node db") {
+					res.findings = append(res.findings, finding{keyDiscardSharedNode, what})
+				} else {
+					viol("%s", what)
+				}
 			}
 			p.emit = false // no observation the model could be compared with
 		}
@@ -1102,9 +1189,19 @@ func runScenario(sc Scenario) (res runResult) {
 				}
 				shape = append(shape, "None")
 				inv := e.Version == ^uint64(0) && e.Index == ^uint32(0)
-				invalid = append(invalid, coqout.Bool(inv))
+				oldRoot := !inv && e.Index == 0 && e.Version < p.end.ver
+				switch {
+				case inv:
+					invalid = append(invalid, "1")
+				case oldRoot:
+					invalid = append(invalid, "2")
+				default:
+					invalid = append(invalid, "0")
+				}
 				if inv {
 					res.hist["pblog:insert-invalid-pointer"]++
+				} else if oldRoot {
+					res.hist["pblog:insert-old-root-slot"]++
 				} else if e.Version == p.end.ver {
 					res.hist["pblog:insert-new-position"]++
 				} else {
@@ -1113,12 +1210,12 @@ func runScenario(sc Scenario) (res runResult) {
 			case 0x02:
 				raw = append(raw, "IDelete "+coqout.Bytes(e.Key))
 				shape = append(shape, "(Some "+coqout.Bytes(e.Key)+")")
-				invalid = append(invalid, "false")
+				invalid = append(invalid, "0")
 				res.hist["pblog:delete"]++
 			default:
 				raw = append(raw, "IBad")
 				shape = append(shape, "None")
-				invalid = append(invalid, "false")
+				invalid = append(invalid, "0")
 			}
 		}
 		rootNode := "None"
@@ -1180,7 +1277,13 @@ func runScenario(sc Scenario) (res runResult) {
 				committed = append(committed, entry{k: e.Key, v: e.Value, del: e.Value == nil})
 			}
 			pairIdx++
-			p := &cand{start: start, end: end, ops: ops, committed: sortLog(committed), clog: committed, seq: bi, idx: pairIdx, emit: true}
+			p := &cand{start: start, end: end, ops: ops, committed: sortLog(committed), clog: committed, seq: bi, idx: pairIdx, emit: true, vi: vi, bi: bi}
+			p.storer = p
+			for _, q := range cands {
+				if q.end.hash.Equal(&end.hash) && q.start.hash.Equal(&start.hash) && q.start.ver == start.ver && p.storer == p {
+					p.storer = q
+				}
+			}
 			if start.ver == end.ver && start.hash.Equal(&end.hash) {
 				p.skip = true
 				res.hist["pair:skipped-same-root"]++
